@@ -47,6 +47,9 @@ OPS_W = (
     + ["ua", "ur", "va", "vr"] + ["newv_u", "newu", "edge_bad"] + ["flag", "bulk", "bulk_u"]
 )
 
+# coverage-guided extra engine (atheris): executions per fuzzer process, 16 processes
+FUZZ = dict(quick=0, thorough=30000)
+
 
 def budget(tier):
     if tier == "quick":
